@@ -65,11 +65,55 @@ func (x Scn) Template(t string) { x.do(Action{Op: "SetTemplate", Key: Key, T: t}
 func (x Scn) Ann(k, v string) { x.do(Action{Op: "SetAnnotation", Key: Key, V: k, W: v}) }
 func (x Scn) K(op, n string, i int, v string) { x.do(Action{Op: op, N: n, I: i, V: v}) }
 
+// CanaryPods returns the ids of the live pods of the canary replica set on the canary nodes.
+func (x Scn) CanaryPods() []int {
+	st := x.D.C.Project()
+	var out []int
+	for _, e := range st.EDS {
+		if e.Key != Key || !e.HasCanary {
+			continue
+		}
+		for _, p := range st.Pods {
+			if p.RSL == e.CanaryRS && !p.Term {
+				for _, n := range e.CNodes {
+					if n == p.Node {
+						out = append(out, p.ID)
+					}
+				}
+			}
+		}
+	}
+	return out
+}
+
+// AwaitCanaryPods runs fair rounds until at least one canary pod exists (at most max rounds).
+func (x Scn) AwaitCanaryPods(max int) []int {
+	for i := 0; i < max; i++ {
+		if ps := x.CanaryPods(); len(ps) > 0 {
+			return ps
+		}
+		x.D.Round()
+	}
+	return x.CanaryPods()
+}
+
+// RestartCanaryPods restarts every canary pod n times.
+func (x Scn) RestartCanaryPods(n int) {
+	for _, id := range x.CanaryPods() {
+		for i := 0; i < n; i++ {
+			x.K("KRestart", "#", id, "Error")
+		}
+	}
+}
+
 // Unpause clears the annotations that legitimately stop convergence.
 func (x Scn) Unpause() {
-	for _, k := range []string{"ru-paused", "frozen", "c-paused"} {
+	for _, k := range []string{"ru-paused", "frozen"} {
 		x.Ann(k, "")
 	}
+	// what `kubectl eds canary unpause` writes
+	x.Ann("c-paused", "false")
+	x.Ann("c-unpaused", "true")
 }
 
 // Scenario is a named scenario of the corpus.
@@ -195,19 +239,14 @@ var Corpus = []Scenario{
 		x.Ann("c-paused", "true")
 		x.Rounds(7)
 		x.Ann("c-paused", "false")
+		x.Ann("c-unpaused", "true")
 		x.D.Converge(40)
 	}},
 	{"canary-autopause-restarts", []string{"C06", "C08", "C05", "C14"}, func(x Scn) {
 		x.Setup(3, "A", CanaryStrategy("1"))
 		x.Template("B")
-		x.Rounds(2)
-		st := x.D.C.Project()
-		for _, n := range st.EDS[0].CNodes {
-			for i := 0; i < 3; i++ {
-				x.K("KRestart", n, 1, "Error")
-				x.K("KRestart", n, 2, "Error")
-			}
-		}
+		x.AwaitCanaryPods(8)
+		x.RestartCanaryPods(3)
 		x.Rounds(8)
 		x.Ann("c-unpaused", "true")
 		x.Rounds(3)
@@ -216,33 +255,42 @@ var Corpus = []Scenario{
 	{"canary-autofail-rollback", []string{"C07", "C06", "C05", "C02", "C14", "C04", "C11", "C13"}, func(x Scn) {
 		x.Setup(3, "A", CanaryStrategy("1"))
 		x.Template("B")
-		x.Rounds(2)
-		st := x.D.C.Project()
-		for _, n := range st.EDS[0].CNodes {
-			for i := 0; i < 6; i++ {
-				x.K("KRestart", n, 1, "Error")
-				x.K("KRestart", n, 2, "Error")
-			}
-		}
+		x.AwaitCanaryPods(8)
+		x.RestartCanaryPods(6)
 		x.D.Converge(40)
 	}},
 	{"canary-fail-after-duration", []string{"C05", "C07"}, func(x Scn) {
 		// the failing sync and the EDS reconcile race around the end of the duration
 		x.Setup(3, "A", CanaryStrategy("1"))
 		x.Template("B")
-		x.Rounds(2)
+		x.AwaitCanaryPods(8)
 		x.Tick(6)
-		st := x.D.C.Project()
-		for _, n := range st.EDS[0].CNodes {
-			for i := 0; i < 6; i++ {
-				x.K("KRestart", n, 1, "Error")
-				x.K("KRestart", n, 2, "Error")
-			}
-		}
+		x.RestartCanaryPods(6)
 		x.Tick(3)
 		x.ERS("B")
 		x.EDS()
 		x.D.Converge(40)
+	}},
+	{"canary-percent", []string{"C15", "C04", "C02", "C14"}, func(x Scn) {
+		x.Setup(4, "A", CanaryStrategy("50%"))
+		x.Template("B")
+		x.Rounds(4)
+		x.D.Converge(50)
+	}},
+	{"canary-antiaffinity-selector", []string{"C15", "C04"}, func(x Scn) {
+		sc := CanaryStrategy("2")
+		sc.CAntiAffinity, sc.CSelector = true, true
+		x.D.Strategy[Key] = sc
+		x.do(Action{Op: "NodeAdd", N: "n1", V: "A,B,C", W: "c;z=z1"})
+		x.do(Action{Op: "NodeAdd", N: "n2", V: "A,B,C", W: "c;z=z1"})
+		x.do(Action{Op: "NodeAdd", N: "n3", V: "A,B,C", W: "c;z=z2"})
+		x.do(Action{Op: "NodeAdd", N: "n4", V: "A,B,C", W: "z=z2"})
+		x.do(Action{Op: "CreateEDS", Key: Key, T: "A"})
+		x.D.Converge(12)
+		x.Template("B")
+		x.Rounds(4)
+		x.do(Action{Op: "NodeCSel", N: "n4", V: "on"})
+		x.D.Converge(50)
 	}},
 	{"canary-node-removed", []string{"C15", "C04", "C02"}, func(x Scn) {
 		x.Setup(4, "A", CanaryStrategy("2"))
@@ -265,6 +313,14 @@ var Corpus = []Scenario{
 		x.do(Action{Op: "NodeOverride", Key: Key, N: "n2", V: "r2"})
 		x.D.Converge(20)
 		x.do(Action{Op: "NodeOverride", Key: Key, N: "n2", V: "r3"})
+		x.D.Converge(20)
+		// override annotation and valid setting for the same container of the same node
+		x.do(Action{Op: "NodeOverride", Key: Key, N: "n1", V: "r2"})
+		x.D.Converge(20)
+		x.do(Action{Op: "NodeOverride", Key: Key, N: "n1", V: "bad"})
+		x.D.Converge(20)
+		x.do(Action{Op: "NodeOverride", Key: Key, N: "n1", V: "none"})
+		x.do(Action{Op: "DeleteSetting", Key: Key, V: "s1"})
 		x.D.Converge(20)
 	}},
 	{"migration-old-daemonset", []string{"C03", "C12", "C02"}, func(x Scn) {
